@@ -561,6 +561,26 @@ func genC07() string {
 	w("/-- the map expression of the final return of VerificationOutcome.UserMetadata -/\n")
 	w("def c07UserMetadataReturns : String := %s\n\n", leanStr(retU))
 
+	// ---- members an envelope plugin's payload may carry besides the unknown ones ------------------
+	const spf = "signer/plugin.go"
+	uaf := mustFunc(parseFile(spf), spf, "", "areUnknownAttributesAdded")
+	var tolerated []string
+	ast.Inspect(uaf.Body, func(n ast.Node) bool {
+		if ce, ok := n.(*ast.CallExpr); ok && callName(ce) == "delete" && len(ce.Args) == 2 && exprText(ce.Args[0]) == "descriptor" {
+			if bl, ok := ce.Args[1].(*ast.BasicLit); ok && bl.Kind == token.STRING {
+				k, _ := strconv.Unquote(bl.Value)
+				tolerated = append(tolerated, k)
+			}
+		}
+		return true
+	})
+	if len(tolerated) == 0 {
+		fail("%s: areUnknownAttributesAdded removes no expected keys", spf)
+	}
+	sort.Strings(tolerated)
+	w("/-- descriptor members areUnknownAttributesAdded (signer/plugin.go) removes before it reports the rest (sorted) -/\n")
+	w("def c07PluginPayloadTolerated : List String := %s\n\n", leanStrList(tolerated))
+
 	// ---- mutable state of the signer objects ------------------------------------------------
 	// every write to a field of the receiver in a method of the signer types: (type, method, field)
 	var writes []string
